@@ -358,7 +358,7 @@ for _d in DATAFITS:
 describe('C09', level='proof', floor=20,
          explanation='raw_hessian == second derivative of the documented loss; get_lipschitz(_sparse) >= curvature along each coordinate',
          assumptions=['array shapes enumerated up to a bound (2x2 quick, 3x2 thorough, every CSC pattern); all real values',
-                      'global constants of the single-task datafits: contracts/c09g.py (the spectral norm itself is a recorded stub: numpy / power-method accuracy is not decided); Cox and group global constants are not under contract'])
+                      'global constants of the single-task datafits: contracts/c09g.py (the spectral norm itself is a recorded stub: numpy / power-method accuracy is not decided); Cox: (sum_i s_i / n) ||X||_2^2 under contract, with the link raw_hessian_i <= sum(s)/n proved at n = 2 for every tie / censoring pattern (contracts/c06b.py); the group and multitask datafits define no global constant'])
 
 
 # ------------------------------------------------------------------ native replay
